@@ -321,7 +321,9 @@ def run(chk: common.Check):
     res = common.lean_prove(PROP_MODULES, tier)
     trusted = [
         "Lean 4 kernel; axioms propext, Quot.sound, Classical.choice only (audited per theorem on this run)",
-        "hand-written model lean/MwVerif/Model/Sections.lean of the section nesting of ParseSections, tied by correspondence",
+        "hand-written models lean/MwVerif/Model/Sections.lean (section nesting of ParseSections), Model/Lists.lean (ParseLines.analyze), "
+        "Model/Rows.lean and Model/Cells.lean (TableRowParser / TableCellParser: grouping of tokens into rows and cells, attribute segments, "
+        "header flag), each tied by correspondence with the real class on token sequences",
         "NOT modelled: list, table, style, link, reference and paragraph passes - for them the check is the denotation oracle: the "
         "structure a generated document tree denotes vs the structure the real parser builds (harness/doc_common.py: generator, "
         "renderer with spelling variants, denotation, tree reader)",
@@ -350,7 +352,21 @@ def run(chk: common.Check):
         lhist.update(h)
     for item, kind, detail in lc:
         bad.append({"lines": item if not isinstance(item, int) else gen_block(random.Random(item)), "text": "", "why": f"{kind}: {detail}"})
+    # table rows and cells: every short token sequence + random ones, real parsers vs the Lean models
+    from . import table_corr
+
+    titems = table_corr.all_items(tier, chk.seed)
+    tr, tc_ = guard.guarded_run(str(chk.mkscratch()), "harness.table_corr:worker", titems, nproc=16, hard_timeout=120)
+    thist = Counter()
+    for d, v, h in tr:
+        diffs += d
+        thist.update(h)
+        for x in v:
+            bad.append({"text": x["text"], "why": x["why"]})
+    for item, kind, detail in tc_:
+        bad.append({"text": repr(item), "why": f"{kind}: {detail} (table rows/cells)"})
     chk.coverage.update({
+        "table_sequences": dict(thist),
         "evaluations": n,
         "distinct_nontrivial": hist.get("documents", 0),
         "rule": "3/4 documents of the recursive grammar (intro blocks, 1-3 sections nested to depth 3 with body text, paragraphs, bullet/"
@@ -358,7 +374,7 @@ def run(chk: common.Check):
                 "small/big, labelled and unlabelled internal links, external links, references, preformatted lines; random blank lines, "
                 "one-cell-per-line vs || rows), parsed in one of the 12 languages with or without a wiki database; every word unique. "
                 "1/4 heading sequences of 1-12 headings with random levels 1-6 (level jumps) vs Model.nest. non-trivial = documents",
-        "traces_validated_against_impl": hist.get("heading-sequences", 0) + lhist.get("blocks", 0),
+        "traces_validated_against_impl": hist.get("heading-sequences", 0) + lhist.get("blocks", 0) + sum(thist.values()),
         "list_blocks": dict(lhist),
         "list_rule": "blocks of list lines (prefix over * # : ;, with or without ' : description'): every block of <= 2 (thorough 3) lines "
                      "with prefixes of length <= 2, then random blocks of 1-9 lines, depth <= 4 with jumps; the real ParseLines.analyze on "
